@@ -832,7 +832,14 @@ class CstStatementDeserializer:
                 # the statement it is attached to.
                 if bound_stmt.bound_variable is not None:
                     assertion.source = bound_stmt.bound_variable
-                bound_stmt.assertions.append(assertion)
+                # The assert holds where it stands, not where its variable was
+                # bound: statements in between may have changed the object
+                # (``s = Stack(); s.push(1); assert len(s) == 1``). Attach it to
+                # the most recently admitted statement so it is rendered -- and
+                # checked -- at its original position.
+                state.testcase.get_statement(state.testcase.size() - 1).assertions.append(
+                    assertion
+                )
             return Disposition.ASSERTION_LIFTED
 
         names = _RootNameCollector.collect(small)
